@@ -17,7 +17,8 @@ import sys
 
 from .. import mon, mcwrap, reflang, gen, probes, mcwork
 from ..mon import LOG
-from ..neutral import show, NK, snapshot_diff, build, lang
+from ..neutral import (show, NK, snapshot_diff, same_structure, build,
+                       lang)
 
 PROP = 'C07'
 
@@ -91,7 +92,7 @@ def judge_nested(c):
     if not c.nested or c.nk is None:
         return
     LOG.hit('c07.structure_nested', c.site)
-    if c.post is None or c.pre != c.post:
+    if not same_structure(c.pre, c.post):
         diff = snapshot_diff(c.pre, c.post or {})
         LOG.violation('c07.structure', PROP, c.case(), {'changed': diff},
                       'structure unchanged',
@@ -113,7 +114,7 @@ def judge(c):
         LOG.sig['raised'] += 1
     # structure purity
     LOG.hit('c07.structure', c.site)
-    if c.post is None or c.pre != c.post:
+    if not same_structure(c.pre, c.post):
         diff = snapshot_diff(c.pre, c.post or {})
         LOG.violation('c07.structure', PROP, c.case(),
                       {'changed': diff,
